@@ -1,4 +1,5 @@
 """F-C11-3: StiffPanelBay.uvw_stiffener offsets (run with /venv/bin/python; not a check)"""
+import sys, os; sys.path.insert(0, os.getcwd())
 import numpy as np
 from compmech.stiffpanelbay import StiffPanelBay
 def bay():
